@@ -77,6 +77,41 @@ func ruleExplicitPanic(c *Ctx, r *Report, rule string, reach map[*ssa.Function]b
 	r.Extra["reachable_functions"] = len(reach)
 }
 
+// ruleNoAbruptExit: the compiler side of the pipeline has no way out other than returning.
+func ruleNoAbruptExit(c *Ctx, r *Report, rule string) {
+	r.rule(rule, 1, "no function reachable from ParseFile (reader, lexer and parser goroutines included) calls panic, runtime.Goexit, os.Exit or log.Fatal*: the parser leaves its statement loop only through the end-of-tokens test, so it always reads the lexer's finaliser token and the lexer goroutine is never left blocked on a send (a panic recovered further up would end the parse with tokens undelivered)")
+	reach := c.reachFromEntries([]string{"ParseFile"})
+	n := 0
+	var names []string
+	for _, f := range sortedReach(reach) {
+		names = append(names, ssaFuncName(f))
+		body := c.bodyOf(f)
+		if body == nil {
+			continue
+		}
+		ast.Inspect(body, func(x ast.Node) bool {
+			if lit, ok := x.(*ast.FuncLit); ok && ast.Node(lit.Body) != body {
+				return false
+			}
+			if call, ok := x.(*ast.CallExpr); ok {
+				switch name := c.calleeName(call); {
+				case name == "panic", name == "runtime.Goexit", name == "os.Exit", strings.HasPrefix(name, "log.Fatal"), strings.HasPrefix(name, "log.Panic"):
+					n++
+					r.bad(rule, ssaFuncName(f)+"/"+name, ssaFuncName(f)+" calls "+name+" and runs inside ParseFile: the call can leave a goroutine of the pipeline blocked or end the parse before the token stream is drained", c.pos(call.Pos()))
+				}
+			}
+			return true
+		})
+	}
+	sort.Strings(names)
+	r.fn(names...)
+	if n == 0 && len(reach) > 20 {
+		r.ok(rule, "reachable-set", fmt.Sprintf("%d reachable functions, none leaves abruptly", len(reach)))
+	} else if n == 0 {
+		r.bad(rule, "reachable-set", fmt.Sprintf("only %d functions found reachable from ParseFile: the anchors of this rule were not found", len(reach)), "")
+	}
+}
+
 func ruleDroppedConversion(c *Ctx, r *Report, rule string, reach map[*ssa.Function]bool) {
 	r.rule(rule, 4, "every strconv conversion in reachable code has its error bound to a variable that is tested right after the call")
 	n := 0
@@ -379,7 +414,39 @@ func ruleTypeAsserts(c *Ctx, r *Report, rule string, reach map[*ssa.Function]boo
 						}
 					}
 				}
-				r.check(ok && pred != "", rule, key, fmt.Sprintf("%s(peek(%d)) holds in the arm", pred, idx), fmt.Sprintf("pop().(%s) is not covered by %s(peek(%d)) in the arm's condition: a value of another type panics here", tname, pred, idx), pos)
+				how := fmt.Sprintf("%s(peek(%d)) holds in the arm", pred, idx)
+				if !ok && pred != "" {
+					// not visible in the arm's own conditions (the test lives in a helper that classifies the
+					// operands): ask the interpreted arm — on every path that reaches this assertion, an earlier
+					// decision must have established the same predicate of the same stack value
+					reached, covered := 0, 0
+					for _, arm := range vm.Arms {
+						for _, pth := range arm.Paths {
+							for i, ev := range pth.Events {
+								if ev.Kind != "assert" || ev.Pos != ta.Pos() {
+									continue
+								}
+								reached++
+								parts := strings.SplitN(ev.Detail, " ", 2)
+								if len(parts) != 2 {
+									continue
+								}
+								want := "callres(" + pred + "(" + parts[1] + "))=true"
+								for _, prev := range pth.Events[:i] {
+									if prev.Kind == "if" && prev.Detail == want {
+										covered++
+										break
+									}
+								}
+							}
+						}
+					}
+					if reached > 0 && covered == reached {
+						ok = true
+						how = fmt.Sprintf("on all %d interpreted paths reaching it, %s of the popped value was established before", reached, pred)
+					}
+				}
+				r.check(ok && pred != "", rule, key, how, fmt.Sprintf("pop().(%s) is not covered by %s(peek(%d)) in the arm's condition: a value of another type panics here", tname, pred, idx), pos)
 			case inner != nil && vm != nil && vm.callRole(c, inner) == "readConst":
 				// operand index within the arm
 				op := ""
@@ -581,17 +648,16 @@ func ruleParserProgress(c *Ctx, r *Report, rule string, spec *langSpec) {
 		r.bad(rule, "tables", err.Error(), "")
 		return
 	}
-	// tokens consumed by decl/stmt
+	// tokens consumed by decl/stmt: those a statement is entered after (read off the dispatch model)
 	consumed := map[string]bool{}
-	for _, name := range []string{"decl", "stmt"} {
-		if _, fd := c.find(name); fd != nil {
-			ast.Inspect(fd.Body, func(n ast.Node) bool {
-				if tok, ok := c.matchTokExpr(n); ok {
-					consumed[tok] = true
-				}
-				return true
-			})
+	if d, err := c.stmtDispatch(spec); err == nil {
+		for tok, fn := range d.got {
+			if d.consumed[tok] && fn != "" && !strings.Contains(fn, "|") {
+				consumed[tok] = true
+			}
 		}
+	} else {
+		r.bad(rule, "decl", err.Error(), "")
 	}
 	okSync := true
 	for _, kw := range spec.SyncSet {
@@ -714,7 +780,7 @@ func ruleLexerProgress(c *Ctx, r *Report, rule string) {
 			}
 			switch x := rs.Results[0].(type) {
 			case *ast.Ident:
-				if x.Name != "nil" && sf[c.identFn(x)] == nil {
+				if !c.isStopState(x) && c.stateFnOf(x, sf) == "" {
 					// a local that holds what a state chooser returned
 					okLocal := false
 					if v, isVar := c.objOf(x).(*types.Var); isVar && !v.IsField() {
@@ -825,7 +891,7 @@ func (c *Ctx) isStateChooser(name string, sf map[string]*ast.FuncDecl, depth int
 		// (state, ok) results: the state is the first
 		switch v := rs.Results[0].(type) {
 		case *ast.Ident:
-			if v.Name != "nil" && sf[c.identFn(v)] == nil {
+			if !c.isStopState(v) && c.stateFnOf(v, sf) == "" {
 				ok = false
 			}
 		case *ast.CallExpr:
@@ -868,7 +934,7 @@ func (c *Ctx) isFailingHelper(name string, depth int) bool {
 		}
 		switch v := rs.Results[0].(type) {
 		case *ast.Ident:
-			if v.Name != "nil" {
+			if !c.isStopState(v) {
 				ok = false
 			}
 		case *ast.CallExpr:
@@ -919,8 +985,21 @@ func ruleLocalIndex(c *Ctx, r *Report, rule string, reach map[*ssa.Function]bool
 				return true
 			}
 			v, ok := c.objOf(id).(*types.Var)
-			if !ok || v.IsField() || v.Parent() == v.Pkg().Scope() || c.isParam(body, pm, n, v) {
-				return true // parameters: the bound is the callers' obligation (u16ToBytes(code[off:]) is E-ISA's)
+			if !ok || v.IsField() || v.Parent() == v.Pkg().Scope() {
+				return true
+			}
+			if c.isParam(body, pm, n, v) {
+				// parameters: the bound is the callers' obligation (u16ToBytes(code[off:]) is E-ISA's; the candidates of a
+				// bind handed to a selection helper are bounded by the count guards, C04 bind-table / count-guards)
+				if isNamedSlice(v.Type(), "Block") {
+					key := fmt.Sprintf("%s/%s[param]", fname, v.Name())
+					count[key]++
+					if count[key] > 1 {
+						key = fmt.Sprintf("%s#%d", key, count[key])
+					}
+					r.ok(rule, key, "index on a parameter holding the bind candidates: in range by the caller's count guards (decided per cell by C04's bind rules)")
+				}
+				return true
 			}
 			switch u := v.Type().Underlying().(type) {
 			case *types.Slice:
@@ -1207,6 +1286,11 @@ func ruleIntDivGuard(c *Ctx, r *Report, rule string, reach map[*ssa.Function]boo
 			key := fmt.Sprintf("%s/div#%d", fname, n)
 			if why, ok := delegated[fname]; ok {
 				r.ok(rule, key, "guard in the caller: "+why)
+				return true
+			}
+			// a helper only the delegating function calls (its int case moved into a function of its own)
+			if owner, ok := c.privateHelperOf(fname, delegated, 0); ok {
+				r.ok(rule, key, "private helper of "+owner+"; guard in that function's caller: "+delegated[owner])
 				return true
 			}
 			guarded := ""
